@@ -189,4 +189,10 @@ theorem lay_printType (s : SchemaD) (o : SdlPrintT.OptsT) (t : TypeD) (hn : name
     simpa [SdlPrintT.printType, hk, e_input, typeDefOf, typeToDef, definitionV, kw, directivesV, Item.yield, Item.yieldAll,
       PrintMatch.yieldAll_append, List.append_assoc, List.map_map, Function.comp_def, hmap] using l
 
+
+theorem printType_ne (s : SchemaD) (o : SdlPrintT.OptsT) (t : TypeD) : SdlPrintT.printType s o t ≠ [] := by
+  unfold SdlPrintT.printType
+  cases t.kind <;> simp [e_scalar, e_enum, e_union, e_type, e_interface, e_input, K.scalar, K.enum_, K.union, K.type_,
+    K.interface_, K.input]
+
 end PyGql.SdlText
